@@ -122,6 +122,7 @@ func c16(e *Env) {
 	e.connectRule("R6")
 	e.portDiscovery("R7")
 	e.disconnectRule("R4")
+	e.sinkConnectRule("R4")
 }
 
 // forAllOutputs2 is kept as an alias: forAllOutputs now judges early exits by what happens after them.
